@@ -296,12 +296,19 @@ impl std::fmt::Debug for TKey {
 
 pub struct TVal {
     pub tok: u64,
-    pub heap: usize
+    pub heap: usize,
+    /// by how much a clone's heap size differs from the original's (a `String` with
+    /// spare capacity clones to a tight one; 0 = faithful)
+    pub clone_delta: i64
 }
 
 impl TVal {
     pub fn new(heap: usize) -> TVal {
-        TVal { tok: mint(None), heap }
+        TVal { tok: mint(None), heap, clone_delta: 0 }
+    }
+
+    pub fn with_clone_delta(heap: usize, clone_delta: i64) -> TVal {
+        TVal { tok: mint(None), heap, clone_delta }
     }
 }
 
@@ -314,7 +321,8 @@ impl Drop for TVal {
 impl Clone for TVal {
     fn clone(&self) -> TVal {
         tick(Kind::Clone);
-        TVal { tok: mint(Some(self.tok)), heap: self.heap }
+        let heap = (self.heap as i64 + self.clone_delta).max(0) as usize;
+        TVal { tok: mint(Some(self.tok)), heap, clone_delta: self.clone_delta }
     }
 }
 
